@@ -49,7 +49,12 @@ def check_stream(ctx, o, spec, tag, label, case, cache_hits_expected=None):
     bad, st = monitors.span_check(evs, spec)
     for k in ("nested_runs", "map_runs", "cache_hits", "route_decisions", "node_errors"):
         ctx.obs[k] += st[k]
+    paused_chain = _paused_chain(o, spec) if bad and spec is not None else None
     for key, what in bad[:2]:
+        if paused_chain is not None and key in ("C12:parent-closed-before-child", "C12:run-never-closed", "C12:node-never-closed") and set(st["open_nodes"]) <= paused_chain[0] and set(st["open_runs"]) <= paused_chain[1]:
+            # known finding: the run FAILED (a sibling's error won) while a nested graph of the same step had paused;
+            # exactly the spans from the pausing interrupt up to the nested-graph node stay open
+            key = "C12:open-spans:failed-run-with-paused-nested-sibling"
         ctx.violation(key, f"{label}: {what}", case)
     if len(shut) != 1:
         ctx.violation("C12:shutdown-count", f"{label}: shutdown invoked {len(shut)} times for one top-level call", case)
@@ -73,6 +78,62 @@ def check_stream(ctx, o, spec, tag, label, case, cache_hits_expected=None):
         if starts != calls + st["cache_hits"]:
             ctx.violation("C12:nodestart-count", f"{label}: {starts} NodeStart events of leaf nodes but {calls} function invocations + {st['cache_hits']} cache hits", case)
     return st
+
+
+def _paused_chain(o, spec):
+    """If an interrupt handler of a NESTED graph answered None (a pause) in this execution: the (graph, node) spans and
+    the graph names on the way from that interrupt up to the top-level graph - the spans a pause legitimately leaves
+    open. None when no nested interrupt paused."""
+    fidx = monitors.fid_index(spec)
+    lidx = monitors.level_index(spec)
+    nodes, graphs = set(), set()
+    for e in o.rec.ev:
+        if e[0] == "exit" and e[2] is None and e[1] in fidx and fidx[e[1]][0]["k"] == "int":
+            ns, prog = fidx[e[1]]
+            path = lidx[prog["name"]][1].split("/")  # top graph name, then the wrapper node names down to this level
+            if len(path) < 2:
+                continue
+            nodes.add((prog["name"], ns["name"]))
+            graphs.add(prog["name"])
+            # enclosing wrappers: the graph-node named path[i] lives in the graph whose path is path[:i]
+            by_path = {pp: g for g, (_, pp) in lidx.items()}
+            for i in range(1, len(path)):
+                owner = by_path.get("/".join(path[:i]))
+                if owner is not None:
+                    nodes.add((owner, path[i]))
+                    if i > 1:
+                        graphs.add(owner)
+    return (nodes, graphs) if nodes else None
+
+
+def pause_next_to_failure(ctx, i):
+    """A nested graph that pauses (its interrupt's handler answers None) in the same step as an ordinary sibling that
+    fails. Whatever outcome the runner reports - PAUSED is outside the statement - a FAILED outcome is a terminated run
+    and owes the observer a closed span tree."""
+    rng = ctx.rng
+    _, ARec = rt.make_processors()
+    inner_nodes = [{"k": "int", "name": "ask", "params": [{"n": "x"}], "outs": ["decision"], "handler": "pause"}]
+    if rng.random() < 0.5:
+        inner_nodes.insert(0, {"k": "fn", "name": "prep", "params": [{"n": "w"}], "outs": ["x"]})
+    sub = {"k": "sub", "name": "review", "prog": {"name": "review", "nodes": inner_nodes, "bind": {}}}
+    if rng.random() < 0.4:
+        sub = {"k": "sub", "name": "wrap", "prog": {"name": "wrap", "nodes": [sub], "bind": {}}}
+    boom = {"k": "fn", "name": "boom", "params": [{"n": "q"}], "outs": ["b"]}
+    other = {"k": "fn", "name": "fine", "params": [{"n": "q"}], "outs": ["f"]}
+    for order in ("failing-first", "nested-first"):
+        nodes = [boom, sub, other] if order == "failing-first" else [sub, other, boom]
+        spec = {"name": "outer", "nodes": nodes, "bind": {}}
+        inputs = {"q": "run:q", "x": "run:x", "w": "run:w"}
+        from hgmon import ref
+
+        inputs = {k: v for k, v in inputs.items() if k in ref.ref_inputs(spec)[0]}
+        for mode in ("raise", "continue"):
+            for sched in (None, rt.Sched(default="rand", rng=rng)):
+                o = core.execute(core.with_async(spec, True, rng, 0.6), inputs, "async", sched=sched, processors=[ARec("p", rng, 2)], fail={"outer/boom": RuntimeError("boom")}, error_handling=mode)
+                ctx.obs["pause_next_to_failure_runs"] += 1
+                ctx.obs["pause_next_to_failure:" + str(o.status).split(":")[0]] += 1
+                check_stream(ctx, o, spec, "p", f"pause-next-to-failure/{order}/{mode}", {"family": "pause-next-to-failure", "spec": spec, "inputs": inputs, "order": order, "mode": mode, "fail": ["outer/boom"]})
+    ctx.case({"pause-next-to-failure": len(inner_nodes), "wrapped": sub["name"]}, True)
 
 
 class FlakySetCache:
@@ -242,6 +303,9 @@ def run(ctx):
     for i in range(n):
         if i % 6 == 5:
             map_call(ctx, i)
+            continue
+        if i % 30 == 8:
+            pause_next_to_failure(ctx, i)
             continue
         fam = families.gated(ctx.rng, deterministic=True) if i % 7 == 3 else families.rich(ctx.rng)
         k = variants(ctx, fam)
